@@ -543,9 +543,13 @@ def r7_solved_flag(R) -> None:
     fi = R.repo.func(q)
     hits = 0
     for n in iter_own_nodes(fi.node):
+        # the per-period list of flags, by role: the local that is subscripted to take the result, and is part of what is returned
         if isinstance(n, ast.Assign) and is_self_call(n.value, 'solve_t') and len(n.targets) == 1 \
-                and isinstance(n.targets[0], ast.Subscript) and text(n.targets[0].value) == 'solved':
-            hits += 1
+                and isinstance(n.targets[0], ast.Subscript) and isinstance(n.targets[0].value, ast.Name):
+            nm_ = n.targets[0].value.id
+            if nm_ == 'solved' or any(isinstance(r_, ast.Return) and r_.value is not None and any(isinstance(y, ast.Name) and y.id == nm_ for y in ast.walk(r_.value))
+                                      for r_ in iter_own_nodes(fi.node)):
+                hits += 1
     # the policy options reach solve_t unchanged from both the multi-period and the single-period entry point
     from rules import c02, c05
     c02.r9_solve_period(R)
